@@ -1,5 +1,6 @@
 import Tv.GenFin
 import Tv.Thm.C20
+import Tv.Thm.C13Gen
 set_option linter.unusedSimpArgs false
 set_option linter.unusedVariables false
 /-!
@@ -232,6 +233,82 @@ theorem half_life_ok_range (corrAt : Nat → Nat → Option Rat) (len : Nat) (mp
   obtain ⟨r, hr⟩ := halfLife_no_panic _ len h
   refine ⟨r, by rw [hr]; rfl, ?_⟩
   exact halfLife_range _ len r h hr
+
+/-! ## winsorize (tevec/src/map.rs), regenerated -/
+
+/-- the model's method as the translator's enum -/
+def toWin : Method → GenFin.WinMethod
+  | .quantile => .quantile
+  | .median => .median
+  | .sigma => .sigma
+
+theorem vclip_model (lo hi : Option Rat) (xs : List (Option Rat)) :
+    GenMap.vclip.run xs lo hi = C20.vclip lo hi xs := by
+  rw [C13Gen.vclip_eq]
+  unfold C13.vclip C20.vclip
+  cases lo <;> cases hi <;> simp only []
+  all_goals
+    apply List.map_congr_left
+    intro v _
+    cases v <;> simp only []
+
+theorem eps_eq : GenAgg.EPS = C20.EPS := by norm_num [GenAgg.EPS, C20.EPS]
+
+theorem ratAbs_eq (x : Rat) : Gen.ratAbs x = absR x := rfl
+
+/-- **the regenerated `winsorize` is the model**: with the model's `vquantile` / `vmedian` /
+`vmean_var(2)` for its three parameters it returns `Ok` of `Tv.C20.winsorize` — defaults, bounds,
+guards and pass-through branches of all three methods are those of the source -/
+theorem winsorize_eq (sqrt : Rat → Rat) (xs : List (Option Rat)) (m : Method) (p : Option Rat) :
+    GenFin.winsorize.run sqrt (fun l q => some (C20.vquantile l q)) C20.vmedian (fun l _ => vmeanVar2 l)
+      xs (toWin m) p = some (C20.winsorize sqrt m p xs) := by
+  cases m
+  · -- quantile
+    simp only [GenFin.winsorize.run, toWin, C20.winsorize, bounds, Method.dflt, vclip_model]
+  · -- median
+    simp only [GenFin.winsorize.run, toWin, C20.winsorize, bounds, Method.dflt, vclip_model]
+    cases hmed : C20.vmedian xs with
+    | none => simp [C20.vclip]
+    | some med =>
+      simp only [Option.isSome_some, if_true]
+      have hmap : (xs.map fun v => (lift2 (· - ·) v (some med)).map ratAbs) =
+          xs.map (Option.map fun v => absR (v - med)) := by
+        apply List.map_congr_left
+        intro v _
+        cases v <;> rfl
+      rw [hmap]
+      cases C20.vmedian (xs.map (Option.map fun v => absR (v - med))) with
+      | none => simp [lift2, C20.vclip]
+      | some mad => simp [lift2]
+  · -- sigma
+    simp only [GenFin.winsorize.run, toWin, C20.winsorize, bounds, Method.dflt, vclip_model, eps_eq]
+    rcases hmv : vmeanVar2 xs with ⟨mean, var⟩
+    cases mean with
+    | none => simp [C20.vclip]
+    | some mean =>
+      cases var with
+      | none => simp [C20.vclip]
+      | some var =>
+        by_cases hv : var > C20.EPS
+        · simp [fGt, hv, lift2]
+        · simp [fGt, hv, C20.vclip]
+
+/-- **from source**: the regenerated `winsorize` clips to one interval — the bounds of the chosen
+method — for every method and every parameter in range -/
+theorem winsorize_from_source_is_clip (sqrt : Rat → Rat) (hs : ∀ x, 0 ≤ sqrt x) (m : Method) (p : Option Rat)
+    (hp : ParamOk m p) (xs : List (Option Rat)) :
+    GenFin.winsorize.run sqrt (fun l q => some (C20.vquantile l q)) C20.vmedian (fun l _ => vmeanVar2 l)
+      xs (toWin m) p = some (Spec.clip (bounds sqrt m p xs).1 (bounds sqrt m p xs).2 xs) := by
+  rw [winsorize_eq, winsorize_is_clip sqrt hs m p hp xs]
+
+/-- … one value per input, nulls stay null -/
+theorem winsorize_from_source_shape (sqrt : Rat → Rat) (m : Method) (p : Option Rat) (xs : List (Option Rat)) :
+    ∃ out, GenFin.winsorize.run sqrt (fun l q => some (C20.vquantile l q)) C20.vmedian (fun l _ => vmeanVar2 l)
+      xs (toWin m) p = some out ∧ out.length = xs.length ∧
+      ∀ i : Nat, xs[i]? = some none → out[i]? = some none :=
+  ⟨_, winsorize_eq sqrt xs m p, winsorize_length sqrt m p xs, fun i h => (winsorize_null sqrt m p xs i).mpr h⟩
+
+theorem winsorize_present : GenFin.winsorize.parsed = true := rfl
 
 theorem half_life_present : GenFin.half_life.parsed = true ∧ GenFin.half_life.loops = 2 := ⟨rfl, rfl⟩
 
